@@ -40,7 +40,20 @@ func (q *vEvQueue) NumRequeues(item interface{}) int           { return 0 }
 
 type vEvRef struct {
 	ns, name string
-	kind     int // 0 Deployment, 1 CloneSet, 2 StatefulSet, 3 Advanced StatefulSet (same kind, other group)
+	kind     int // 0 Deployment, 1 CloneSet, 2 StatefulSet, 3 Advanced StatefulSet (same kind, other group), 4 the same written with its older API version
+}
+
+// vEvTargets: does the reference name this workload?  Group and kind decide; the version a workloadRef is written with
+// is not part of the identity (the Advanced StatefulSet informer delivers apps.kruise.io/v1beta1 objects whatever
+// version the Rollout was written against).
+func vEvTargets(ref, w vEvRef) bool {
+	gk := func(k int) int {
+		if k == 4 {
+			return 3
+		}
+		return k
+	}
+	return ref.ns == w.ns && ref.name == w.name && gk(ref.kind) == gk(w.kind)
 }
 
 var vEvRefs = []v1beta1.ObjectRef{
@@ -48,10 +61,11 @@ var vEvRefs = []v1beta1.ObjectRef{
 	{APIVersion: "apps.kruise.io/v1alpha1", Kind: "CloneSet"},
 	{APIVersion: "apps/v1", Kind: "StatefulSet"},
 	{APIVersion: "apps.kruise.io/v1beta1", Kind: "StatefulSet"},
+	{APIVersion: "apps.kruise.io/v1alpha1", Kind: "StatefulSet"},
 }
 
 func vEvPick(tag string) vEvRef {
-	return vEvRef{ns: []string{"ns", "ns2"}[verifrt.IntRange(tag+".ns", 0, 1)], name: []string{"orders", "orders-v2"}[verifrt.IntRange(tag+".name", 0, 1)], kind: verifrt.IntRange(tag+".kind", 0, 3)}
+	return vEvRef{ns: []string{"ns", "ns2"}[verifrt.IntRange(tag+".ns", 0, 1)], name: []string{"orders", "orders-v2"}[verifrt.IntRange(tag+".name", 0, 1)], kind: verifrt.IntRange(tag+".kind", 0, 4)}
 }
 
 func vEvRollout(name string, ref vEvRef) v1beta1.Rollout {
@@ -65,7 +79,7 @@ func VerifC07_WorkloadEventWakesItsRollout() {
 	refA, refB := vEvPick("a"), vEvPick("b")
 	hasB := verifrt.Bool("b.exists")
 	// one Rollout per workload (validating webhook, C09)
-	verifrt.Assume(!hasB || refA != refB)
+	verifrt.Assume(!hasB || !vEvTargets(refA, refB))
 	roA, roB := vEvRollout("ro-a", refA), vEvRollout("ro-b", refB)
 	cli := &symclient.Client{}
 	cli.ListFn = func(list client.ObjectList, opts []client.ListOption) error {
@@ -123,9 +137,9 @@ func VerifC07_WorkloadEventWakesItsRollout() {
 		h.Update(event.UpdateEvent{ObjectOld: obj.DeepCopyObject().(client.Object), ObjectNew: obj}, q)
 	}
 	var want *types.NamespacedName
-	if refA == w {
+	if vEvTargets(refA, w) {
 		want = &types.NamespacedName{Namespace: refA.ns, Name: "ro-a"}
-	} else if hasB && refB == w {
+	} else if hasB && vEvTargets(refB, w) {
 		want = &types.NamespacedName{Namespace: refB.ns, Name: "ro-b"}
 	}
 	if want != nil {
